@@ -216,6 +216,15 @@ pub fn c02_large(alg: Algorithm, inp: &LargeInput) -> Result<(bool, u64, u64), S
         if !(0.0..=1.0).contains(&r1) || (r1 == 1.0) != (old == new) {
             return Err(format!("TextDiff::ratio = {}", r1));
         }
+        // the same lines as a caller-side DiffableStr whose hash is coarse (the line length only)
+        if n + m <= 1200 {
+            let t3 = subject(|| {
+                use crate::instr::Ch;
+                TextDiff::configure().algorithm(alg).diff_lines(Ch::new(to.as_bytes()), Ch::new(tn.as_bytes())).ops().to_vec()
+            })
+            .map_err(|p| format!("TextDiff over a DiffableStr with a coarse hash: panic: {}", p))?;
+            chk(&t3, "TextDiff::ops (diff_lines over a caller-side DiffableStr whose hash is the token length only)")?;
+        }
     }
     let (_, pinf) = cap32_deadline(alg, old, new, u64::MAX)?;
     let mut tr = ops.len() as u64 + sub.len() as u64;
